@@ -103,6 +103,13 @@ def run(tier, seed):
             c = container.writer_cmd(G, cd, 20, ops, cid=len(wcmds))
             c["schema"] = dict(c["schema"], via_edit=True)
             wcmds.append(c)
+    # the sync marker left to the library (randomly generated): header and every block carry the same one
+    for cd in container.CODECS:
+        for k in range(2):
+            ops = [json.loads(json.dumps(alpha[ch])) for ch in "sBxs"] + [{"op": "into_inner"}]
+            c = container.writer_cmd(G, cd, 20, ops, cid=len(wcmds))
+            c["random_sync"] = True
+            wcmds.append(c)
     # zero-byte datums (schema null, a record without fields): blocks with a count and an empty payload, every codec
     Gnull = [{"k": "null", "lt": "none"}]
     Gempty = [{"k": "record", "lt": "none", "name": container.T("Empty"), "fields": []}]
@@ -116,6 +123,10 @@ def run(tier, seed):
                     c["_si"] = si
                     wcmds.append(c)
     wevents, wobs, _, ntw = C15.validate(rep, [G, Gnull, Gempty], wcmds, "layout of a written file")
+    rs = [bytes(o["sink"][o["build"]["sink_len"] - 16:o["build"]["sink_len"]]) for c, o in zip(wcmds, wobs)
+          if c.get("random_sync") and o.get("res") == "ok" and o.get("build", {}).get("res") == "ok"]
+    if len(rs) >= 4 and len(set(rs)) < len(rs) // 2:
+        rep.note(f"library-generated sync markers repeat: {len(set(rs))} distinct among {len(rs)} files (the Avro specification asks for a randomly generated marker)")
     cov = {
         "states": r["states"], "transitions": r["states"], "traces_validated_against_impl": ntr + ntw,
         "evaluations": len(plans) + len(wcmds), "distinct_nontrivial": len(plans) + len(wcmds),
